@@ -275,7 +275,7 @@ class Run:
         src = os.path.join(self.root, "native", "nx.c")
         if not os.path.exists(self.nx) or os.path.getmtime(self.nx) < os.path.getmtime(src):
             with Lock(os.path.join(self.root, ".cc.lock")):
-                p = subprocess.run(["cc", "-O1", "-o", self.nx, src], capture_output=True, text=True)
+                p = subprocess.run(["cc", "-O1", "-fno-stack-protector", "-o", self.nx, src], capture_output=True, text=True)
                 if p.returncode != 0:
                     log(p.stderr[-2000:])
                     return False
